@@ -86,13 +86,16 @@ func Minimise(d Driver, sc *Scenario, maxSteps int) *Scenario {
 	if v0 == nil {
 		return sc
 	}
-	oracle := v0.Oracle
+	oracle, sig := v0.Oracle, v0.Signature
 	best := sc.Clone()
 	steps := 0
+	// a candidate is kept only if it fails the same oracle with the same
+	// signature: shrinking must not drift into a different violation (in
+	// particular not into a known finding, which would then hide this one)
 	still := func(c *Scenario) *Violation {
 		steps++
 		v := d.Check(c)
-		if v != nil && v.Oracle == oracle {
+		if v != nil && v.Oracle == oracle && v.Signature == sig {
 			return v
 		}
 		return nil
